@@ -100,6 +100,8 @@ pub fn int_bound(rng: &mut Rng, extremes: bool) -> i64 {
 pub fn float_bound(rng: &mut Rng, extremes: bool) -> f64 {
     let r = rng.below(100);
     if extremes && r < 6 { return *rng.pick(&[f64::MIN, f64::MAX, -1e300, 1e300, 9007199254740992.0, 9007199254740993.0, -0.0]); }
+    // a float one or two ulps away from an integer (and tiny non-zero values): not integral, however close
+    if r >= 96 { return *rng.pick(&[0.9999999999999999, 1.0000000000000002, 2.9999999999999996, 3.0000000000000004, -0.9999999999999999, 1e-17, -1e-17, 4.000000000000001, 0.1 + 0.2]); }
     if r < 40 { rng.range(-4, 8) as f64 } else if r < 80 { rng.range(-16, 32) as f64 * 0.25 } else { rng.range(-1000, 1000) as f64 * 0.5 }
 }
 
